@@ -384,11 +384,20 @@ def splice_equivalent(rel, text):
     co = {k: v for k, v in cmod.items() if k not in rmod}
     ro = {k: v for k, v in rmod.items() if k not in cmod}
     done = []
-    plan = []
+    plan = []          # (qualname, cur fn, replacement lines)
+    rlines = ref_text.split('\n')
+    clines = text.split('\n')
+
+    def seg(fn):
+        lo = min([fn.lineno] + [d.lineno for d in fn.decorator_list])
+        return lo, fn.end_lineno
     for q in sorted(cf, key=lambda x: (x.count('.'), x)):
         if q not in rf or any(q.startswith(p + '.') for p in done):
             continue
         a, b = cf[q], rf[q]
+        la, lb = seg(a), seg(b)
+        if clines[la[0] - 1:la[1]] == rlines[lb[0] - 1:lb[1]]:
+            continue
         if ast.dump(a) == ast.dump(b):
             continue
         try:
@@ -397,23 +406,59 @@ def splice_equivalent(rel, text):
             eq = False
         if eq:
             done.append(q)
-            plan.append((q, a, b))
+            rlo, rhi = seg(b)
+            plan.append((q, a, rlines[rlo - 1:rhi]))
+            continue
+        # not equivalent: at least remove what the reviewed function does not have (new locals / helpers / constant loops)
+        try:
+            out, _ = normform.toward_reviewed(a, b, co)
+        except Exception:
+            out = None
+        if out is not None:
+            try:
+                ast.fix_missing_locations(out)
+                txt = ast.unparse(out)
+                ast.parse(txt)
+            except Exception:
+                continue
+            pad = ' ' * min([a.col_offset] + [d.col_offset - 1 for d in a.decorator_list if d.col_offset > 0])
+            done.append(q)
+            plan.append((q, a, [pad + l if l else l for l in txt.split('\n')]))
     if not plan:
         return text, []
 
     def seg(fn):
         lo = min([fn.lineno] + [d.lineno for d in fn.decorator_list])
         return lo, fn.end_lineno
-    lines, rlines = text.split('\n'), ref_text.split('\n')
+    lines = text.split('\n')
     plan.sort(key=lambda t: seg(t[1])[0])
     out, pos, splices = [], 1, []
-    for q, a, b in plan:
+    for q, a, repl in plan:
         lo, hi = seg(a)
-        rlo, rhi = seg(b)
         out.extend(lines[pos - 1:lo - 1])
         canon_lo = len(out) + 1
-        out.extend(rlines[rlo - 1:rhi])
+        out.extend(repl)
         splices.append((q, canon_lo, len(out), lo, hi))
         pos = hi + 1
     out.extend(lines[pos - 1:])
-    return '\n'.join(out), splices
+    new_text = '\n'.join(out)
+    # helpers that exist only in the current module and are no longer called anywhere (they were inlined): blanked
+    if co:
+        try:
+            t2 = ast.parse(new_text)
+            loads = {n.id for n in ast.walk(t2) if isinstance(n, ast.Name) and isinstance(n.ctx, ast.Load)}
+            loads |= {n.attr for n in ast.walk(t2) if isinstance(n, ast.Attribute)}
+            exported = set()
+            for n in t2.body:
+                if isinstance(n, ast.Assign) and any(isinstance(t, ast.Name) and t.id == '__all__' for t in n.targets):
+                    exported |= {c.value for c in ast.walk(n.value) if isinstance(c, ast.Constant) and isinstance(c.value, str)}
+            ol = new_text.split('\n')
+            for n in t2.body:
+                if isinstance(n, ast.FunctionDef) and n.name in co and n.name not in loads and n.name not in exported:
+                    lo = min([n.lineno] + [d.lineno for d in n.decorator_list])
+                    for k in range(lo - 1, n.end_lineno):
+                        ol[k] = ''
+            new_text = '\n'.join(ol)
+        except SyntaxError:
+            pass
+    return new_text, splices
